@@ -3,6 +3,7 @@
 package fwdsim
 
 import (
+	"bufio"
 	"context"
 	"errors"
 	"fmt"
@@ -16,6 +17,7 @@ import (
 
 	"github.com/mutagen-io/mutagen/pkg/forwarding"
 	"github.com/mutagen-io/mutagen/pkg/logging"
+	"github.com/mutagen-io/mutagen/pkg/multiplexing"
 	"github.com/mutagen-io/mutagen/pkg/selection"
 	urlpkg "github.com/mutagen-io/mutagen/pkg/url"
 
@@ -29,7 +31,7 @@ func (Engine) Name() string { return "fwdsim" }
 
 func (Engine) Scenarios(property string) []string {
 	if property == "C33" {
-		return []string{"relay", "relay-faults"}
+		return []string{"relay", "relay-faults", "relay-mux"}
 	}
 	return nil
 }
@@ -53,12 +55,34 @@ func (Engine) Generate(property, scenario string, seed uint64, tier string) *sim
 	if c["frag"] == 1 {
 		maxPayload = 300
 	}
+	if scenario == "relay-mux" {
+		// The destination is reached through a remote endpoint: every
+		// forwarded connection is a stream of a real multiplexer pair, with a
+		// second relay on the far side. Payloads may exceed the stream window.
+		c["over_mux"] = 1
+		c["frag"] = int64(simkit.Pick(r, []int{0, 4096, 1000}))
+		c["short"] = int64(simkit.Pick(r, []int{0, 0, 9}))
+		c["linkcap"] = 0
+		n = r.Range(1, 3)
+		maxPayload = 3000
+	}
 	for i := 0; i < n; i++ {
 		// conn: client bytes, server bytes, client half-closes, server
 		// half-closes, who speaks first (0 client, 1 server, 2 both at once)
-		p.Ops = append(p.Ops, simkit.Op{Actor: fmt.Sprintf("conn%d", i), Kind: "conn", N: []int64{
+		op := simkit.Op{Actor: fmt.Sprintf("conn%d", i), Kind: "conn", N: []int64{
 			int64(r.SmallBiased(maxPayload)), int64(r.SmallBiased(maxPayload)), int64(r.Intn(2)), int64(r.Intn(2)), int64(r.Intn(3)), int64(r.Range(0, 3000)),
-		}})
+		}}
+		if scenario == "relay-mux" && r.Chance(1, 2) {
+			// One side says little and half-closes, the other answers with
+			// more than one stream window.
+			big := int64(r.Range(70000, 200000))
+			if r.Chance(1, 2) {
+				op.N[0], op.N[1], op.N[2], op.N[4] = int64(r.Range(1, 300)), big, 1, 0
+			} else {
+				op.N[0], op.N[1], op.N[3], op.N[4] = big, int64(r.Range(1, 300)), 1, 1
+			}
+		}
+		p.Ops = append(p.Ops, op)
 	}
 	if scenario == "relay-faults" {
 		for k := r.Range(1, 3); k > 0; k-- {
@@ -172,7 +196,33 @@ func (e *endpoint) Open() (net.Conn, error) {
 	c.paired = true
 	h.mu.Unlock()
 	close(c.dialed)
+	if h.muxNear != nil {
+		// The connection to the destination is a multiplexed stream; the far
+		// relay (below) accepts it and forwards to the server's link.
+		h.muxPending <- c
+		ctx, cancel := context.WithTimeout(context.Background(), 30*time.Second+13*time.Microsecond)
+		defer cancel()
+		st, err := h.muxNear.OpenStream(ctx)
+		if err != nil {
+			return nil, fmt.Errorf("unable to open stream: %w", err)
+		}
+		return st, nil
+	}
 	return c.serverLink.A, nil
+}
+
+// farRelay is the remote endpoint's side of the relay-mux scenario: it accepts
+// streams and forwards each to the server link of the connection dialled for it
+// (dials are sequential, so the order is theirs), with the real ForwardAndClose.
+func (h *harness) farRelay() {
+	for {
+		st, err := h.muxFar.AcceptStream(context.Background())
+		if err != nil {
+			return
+		}
+		c := <-h.muxPending
+		go forwarding.ForwardAndClose(context.Background(), st, c.serverLink.A, nil, nil)
+	}
 }
 
 type conn struct {
@@ -224,6 +274,10 @@ type harness struct {
 	sourceEP                *endpoint
 	disturbed               bool // a pause/terminate/dial failure/reset happened
 	pendingClosedCheck      string
+	// relay-mux: the multiplexer pair between the controller and the far relay
+	muxNear, muxFar *multiplexing.Multiplexer
+	muxIdle         func() bool
+	muxPending      chan *conn
 }
 
 func (h *harness) linkOpts(key string) simkit.LinkOpts {
@@ -328,6 +382,21 @@ func execRelay(t *testing.T, plan *simkit.Plan) *simkit.Result {
 		h := &harness{s: s, plan: plan, incoming: make(chan *conn)}
 		current = h
 		defer func() { current = nil }()
+		if plan.C("over_mux") == 1 {
+			// The carrier between the two multiplexers is a plain in-memory
+			// pipe without gates: the multiplexer's reader holds a stream's
+			// receive lock while the rest of a data frame is on its way, and a
+			// frame cut in two by a scheduler step would leave a Read waiting
+			// for that sync.Mutex (invisible to the bubble). What the scheduler
+			// decides in this scenario is everything outside the pair.
+			ab, ba := newMemPipe(), newMemPipe()
+			h.muxIdle = func() bool { return ab.idle() && ba.idle() }
+			h.muxNear = multiplexing.Multiplex(&memCarrier{in: ba, out: ab, r: bufio.NewReader(ba)}, false, nil)
+			h.muxFar = multiplexing.Multiplex(&memCarrier{in: ab, out: ba, r: bufio.NewReader(ab)}, true, nil)
+			h.muxPending = make(chan *conn, 64)
+			go h.farRelay()
+			defer func() { h.muxNear.Close(); h.muxFar.Close() }()
+		}
 		logger := logging.NewLogger(logging.LevelDebug, io.Discard)
 		mgr, err := forwarding.NewManager(logger)
 		if err != nil {
@@ -495,6 +564,17 @@ func execRelay(t *testing.T, plan *simkit.Plan) *simkit.Result {
 					h.mu.Unlock()
 					return
 				}
+			}
+			if when != "" && h.muxIdle != nil && !h.muxIdle() {
+				// (The far relay learns of a cancellation through the
+				// multiplexer: while its carrier still has bytes on their way,
+				// the far connections are not overdue.)
+				h.mu.Lock()
+				if h.pendingClosedCheck == "" {
+					h.pendingClosedCheck = when
+				}
+				h.mu.Unlock()
+				return
 			}
 			if when != "" {
 				h.checkAllClosed(when)
@@ -669,3 +749,75 @@ func isPrefix(got, want []byte) bool {
 	}
 	return true
 }
+
+// memPipe is an unbounded in-memory byte pipe (one direction of the carrier
+// between the two multiplexers of the relay-mux scenario).
+type memPipe struct {
+	mu     sync.Mutex
+	buf    []byte
+	closed bool
+	ready  chan struct{}
+}
+
+func newMemPipe() *memPipe { return &memPipe{ready: make(chan struct{}, 1)} }
+
+func (p *memPipe) idle() bool {
+	p.mu.Lock()
+	defer p.mu.Unlock()
+	return len(p.buf) == 0
+}
+
+func (p *memPipe) Read(b []byte) (int, error) {
+	for {
+		p.mu.Lock()
+		if len(p.buf) > 0 {
+			n := copy(b, p.buf)
+			p.buf = p.buf[n:]
+			p.mu.Unlock()
+			return n, nil
+		}
+		closed := p.closed
+		p.mu.Unlock()
+		if closed {
+			return 0, io.EOF
+		}
+		<-p.ready
+	}
+}
+
+func (p *memPipe) write(b []byte) (int, error) {
+	p.mu.Lock()
+	if p.closed {
+		p.mu.Unlock()
+		return 0, io.ErrClosedPipe
+	}
+	p.buf = append(p.buf, b...)
+	p.mu.Unlock()
+	select {
+	case p.ready <- struct{}{}:
+	default:
+	}
+	return len(b), nil
+}
+
+func (p *memPipe) close() {
+	p.mu.Lock()
+	p.closed = true
+	p.mu.Unlock()
+	select {
+	case p.ready <- struct{}{}:
+	default:
+	}
+}
+
+// memCarrier is a multiplexer carrier over two memPipes.
+type memCarrier struct {
+	in, out *memPipe
+	r       *bufio.Reader
+}
+
+func (c *memCarrier) Read(p []byte) (int, error)  { return c.r.Read(p) }
+func (c *memCarrier) ReadByte() (byte, error)     { return c.r.ReadByte() }
+func (c *memCarrier) Discard(n int) (int, error)  { return c.r.Discard(n) }
+func (c *memCarrier) Write(p []byte) (int, error) { return c.out.write(p) }
+func (c *memCarrier) Close() error                { c.out.close(); c.in.close(); return nil }
